@@ -14,13 +14,19 @@
     proved for the clean recursion [cnt] / [prefix_unrank], and the stack
     machine, the memoised recursive counter, the two dispatchers the sampler
     calls and any session of calls on one shared memo table are proved to
-    compute exactly those (for every valid memo table, relative to fuel:
-    whenever they return [Ok]; fuel exhaustion is an error value that the
-    correspondence run never observes). *)
+    compute exactly those, for every valid memo table: the [_refines]
+    statements say so whenever the fuelled model function returns [Ok], and
+    the [_total] statements (Comb/TotalProofs.v) show that it always does --
+    the fuel the model gives its [while] loops ([k_fuel] for the stack
+    machine, [q + 2] for the memoised recursion) is never exhausted and no
+    other error value can come out, so the results are the clean ones
+    outright.  The step bound behind [k_fuel] is amortised over the memo
+    table: each key [(start_i, need_n)] is expanded at most once off the path
+    to the wanted index, at a cost of at most [2 first_n + 4] steps. *)
 From Coq Require Import ZArith List Bool Lia.
 From SP Require Import Comb.CombModel Comb.CombSpec Comb.BinomFacts Comb.RadixProofs
   Comb.CnsProofs Comb.PermProofs Comb.MultiProofs Comb.PrefixProofs Comb.CountProofs
-  Comb.DispatchProofs Comb.StackProofs Comb.SessionProofs.
+  Comb.DispatchProofs Comb.StackProofs Comb.SessionProofs Comb.TotalProofs.
 Import ListNotations.
 Open Scope Z_scope.
 
@@ -205,3 +211,50 @@ Theorem C13_session_refines : forall q mc ops memo, params_ok q mc ->
   memo_valid q mc (snd (memo_session q mc ops memo)).
 Proof. exact SessionProofs.session_refines. Qed.
 Print Assumptions C13_session_refines.
+
+(** ** totality: the fuel of the model is always sufficient, so the stack
+    machine, the memoised recursion, the dispatchers and every call of a
+    session return [Ok] with the clean value (same hypotheses as the
+    [_refines] statements above) *)
+Theorem C13_stack_count_total : forall q mc first_n memo,
+  params_ok q mc -> 0 <= first_n -> memo_valid q mc memo ->
+  exists memo', k_prefixes_of_permutations_with_copies q mc first_n (-1) memo =
+                  Ok (KCount (cnt (cs_of q mc) first_n), memo') /\ memo_valid q mc memo'.
+Proof. exact TotalProofs.k_prefixes_count_total. Qed.
+Print Assumptions C13_stack_count_total.
+Theorem C13_stack_unrank_total : forall q mc first_n memo j,
+  params_ok q mc -> 0 <= first_n -> memo_valid q mc memo -> 0 <= j < cnt (cs_of q mc) first_n ->
+  exists w memo', k_prefixes_of_permutations_with_copies q mc first_n j memo = Ok (KPerm w, memo') /\
+                  prefix_unrank (cs_of q mc) first_n j = Some w /\ memo_valid q mc memo'.
+Proof. exact TotalProofs.k_prefixes_unrank_total. Qed.
+Print Assumptions C13_stack_unrank_total.
+Theorem C13_recur_count_total : forall q m first_n memo,
+  0 <= q -> 0 <= m -> 0 <= first_n -> memo_valid q (Uniform m) memo ->
+  exists memo', recur_count_prefixes_of_permutations_with_copies q m first_n memo =
+                  Ok (cnt (repeat m (Z.to_nat q)) first_n, memo') /\ memo_valid q (Uniform m) memo'.
+Proof. exact TotalProofs.recur_count_prefixes_total. Qed.
+Print Assumptions C13_recur_count_total.
+Theorem C13_count_dispatch_total : forall q mc first_n memo,
+  params_ok q mc -> 0 <= first_n -> memo_valid q mc memo ->
+  exists memo', count_prefixes_of_permutations_with_copies q mc first_n memo =
+                  Ok (KCount (cnt (cs_of q mc) first_n), memo') /\ memo_valid q mc memo'.
+Proof. exact TotalProofs.count_dispatch_total. Qed.
+Print Assumptions C13_count_dispatch_total.
+Theorem C13_unrank_dispatch_total : forall q mc first_n memo j,
+  params_ok q mc -> 0 <= first_n -> memo_valid q mc memo -> 0 <= j < cnt (cs_of q mc) first_n ->
+  exists w memo', compute_jth_prefix_of_permutations_with_copies q mc first_n j memo = Ok (KPerm w, memo') /\
+                  bounded_word (cs_of q mc) first_n w /\ dispatch_rank q mc first_n w = j /\
+                  memo_valid q mc memo'.
+Proof. exact TotalProofs.unrank_dispatch_total. Qed.
+Print Assumptions C13_unrank_dispatch_total.
+Theorem C13_session_total : forall q mc ops memo, params_ok q mc ->
+  Forall (op_in_range q mc) ops -> memo_valid q mc memo ->
+  Forall2 (op_result_total q mc) ops (fst (memo_session q mc ops memo)) /\
+  memo_valid q mc (snd (memo_session q mc ops memo)).
+Proof. exact TotalProofs.session_total. Qed.
+Print Assumptions C13_session_total.
+Example C13_total_example :
+  k_fuel 3 4 = 736%nat /\
+  (exists r, krun 60 3 (Uniform 2) 4 [DoCount 0 4 [] 1] 0 (-1) [] = Ok r) /\
+  krun 40 3 (Uniform 2) 4 [DoCount 0 4 [] 1] 0 (-1) [] = Err OutOfFuel.
+Proof. exact TotalProofs.k_fuel_example. Qed.
